@@ -12,7 +12,7 @@ from dliswriter.logical_record.core.eflr import AttrSetup
 
 THEOREMS = [
     'Dlis.C04.parseEflr_setBody', 'Dlis.C04.attr_value_bit', 'Dlis.C04.attr_count_matches',
-    'Dlis.C04.fileHeader_instance', 'Dlis.C04.empty_list_encoding', 'Dlis.C04.empty_set_no_record', 'Dlis.Obligations.schema_ok', 'Dlis.Obligations.sets_eq',
+    'Dlis.C04.fileHeader_parses', 'Dlis.C04.fileHeader_instance', 'Dlis.C04.empty_list_encoding', 'Dlis.C04.empty_set_no_record', 'Dlis.Obligations.schema_ok', 'Dlis.Obligations.sets_eq',
 ]
 
 SET_CLASSES = [s for s in eflr_types.eflr_sets if s is not eflr_types.FileHeaderSet]
